@@ -171,7 +171,7 @@ class VMModel:
     def mentions_lp_prefix(self, t, prefix):
         def pred(x):
             if isinstance(x, tuple) and x and x[0] in ('init', 'ld', 'seq', 'find', 'contains', 'aend', 'abegin',
-                                                       'size', 'refto', 'ptrto', 'empty'):
+                                                       'size', 'asize', 'refto', 'ptrto', 'empty'):
                 lp = x[1]
                 if isinstance(lp, tuple) and lp[:len(prefix)] == prefix:
                     return True
